@@ -114,6 +114,13 @@ class Ctx:
             os.ftruncate(self._afd, 0)
             os.pwrite(self._afd, b, 0)
 
+    def heartbeat(self):
+        """tell the parent watchdog that a long sub-step (a fuzzer campaign, a child process) is alive"""
+        if self._afd is not None:
+            self._beat = getattr(self, "_beat", 0) + 1
+            os.pwrite(self._afd, b" " * (self._beat % 2) + b"{}", 0)
+            os.ftruncate(self._afd, 2 + self._beat % 2)
+
     def record(self, key, labels=(), nontrivial=False, sample=None):
         """key: string identifying the case (hashed for distinct counting)."""
         self.evaluations += 1
